@@ -368,6 +368,21 @@ def r10_2(ctx):
             if not (form_a or form_b or form_c):
                 ok = False
                 detail = detail or f"set_shape({norm(wn)}, {norm(hn)}) is not the stored _shape"
+        # the stored height covers the frame rendered NOW: it is that frame's own height or max(that height, ..) - set_shape pads
+        # a frame up to the stored height but never cuts one down, so a smaller stored height (min(..)) is fewer rows than are
+        # written and the next erase leaves the top rows of this frame on screen
+        new_shapes = {x.targets[0].id for x in walk_local(f2.node) if isinstance(x, ast.Assign) and len(x.targets) == 1 and isinstance(x.targets[0], ast.Name) and isinstance(x.value, ast.Call) and norm(x.value.func).endswith("get_shape")}
+        new_h = {x.targets[0].elts[1].id for x in walk_local(f2.node) if isinstance(x, ast.Assign) and isinstance(x.targets[0], ast.Tuple) and len(x.targets[0].elts) == 2 and isinstance(x.value, ast.Name) and x.value.id in new_shapes and isinstance(x.targets[0].elts[1], ast.Name)}
+        for ss in shape_stores:
+            tv = ss.stmt.value
+            if isinstance(tv, ast.Name) and tv.id in new_shapes:
+                continue
+            if isinstance(tv, ast.Tuple) and len(tv.elts) == 2:
+                hx = tv.elts[1]
+                if (isinstance(hx, ast.Name) and hx.id in new_h) or (isinstance(hx, ast.Call) and norm(hx.func) == "max" and any(isinstance(a_, ast.Name) and a_.id in new_h for a_ in hx.args)):
+                    ctx.ok(f"{f2.module.relpath}:{ss.lineno}", "the stored height is at least the height of the frame rendered now", f2.fq)
+                elif isinstance(hx, ast.Call) and norm(hx.func) == "min":
+                    ctx.violation(f2.fq, short(ss.stmt), f"{f2.module.relpath}:{ss.lineno}", f"`{short(ss.stmt)}` stores `{norm(hx)}` as the frame height: when the new frame is taller than the previous one fewer rows are recorded than are written (set_shape pads, it never crops), the cursor is moved up too little before the next frame and the top rows of this one stay on screen")
         ctx.check(ok, f2.fq, f"for ... in {norm(L.stmt.iter)}", f"{f2.module.relpath}:{L.lineno}", "emitted lines are set_shape()d to the stored (width, height)",
                   f"LiveRender emits lines that are not shaped to the stored _shape ({detail}): erase height and frame height disagree")
 
